@@ -108,7 +108,7 @@ theorem c05_start_noGhost (r : Header) (buf : Bytes) (h : Header) (n : Nat)
 theorem c05_history (s : Start) (ops : List Op) (hwf : wf s = true) :
     ∃ h, startHeader s = some h ∧
       readsOk (view h) [] (modelReads h []) = true ∧
-      foldOk (view h) (h.extension, (C01.canonH h).extProfile) ops (modelSteps h ops).1 =
+      foldOk (view h) (h.extension, h.extProfile) ops (modelSteps h ops).1 =
         some (view (modelSteps h ops).2) := by
   unfold wf at hwf
   cases hs : startHeader s with
@@ -186,7 +186,7 @@ theorem c05_pred_model (hrt : HeaderRoundTrip) (s : Start) (ops : List Op)
   simp only [finalWf, finalHeader, hs, Option.map_some] at hfw
   simp only [Pred.C05.pred, holds, modelObs, hs]
   have hstart : (if h.extension = true then List.map (fun e => (e.id, e.payload)) h.exts else []) = view h := rfl
-  have hinit : ((modelReads h []).x, (modelReads h []).profile) = (h.extension, (C01.canonH h).extProfile) := rfl
+  have hinit : ((modelReads h []).x, (modelReads h []).profile) = (h.extension, h.extProfile) := rfl
   simp only [hstart, Bool.not_true, Bool.false_or, hr, Bool.true_and, hinit, hf]
   exact finalOk_model hrt _ hfw
 
